@@ -264,8 +264,12 @@ def run(ctx, pid, args):
     n_obl = len(obligations)
     n_dis = sum(1 for o in obligations if o[1])
     samples = []
+
+    def clip(x, n=1500):
+        t = json.dumps(x, default=str)
+        return x if len(t) <= n else t[:n] + ' ...[clipped]'
     for r in recs[:: max(1, len(recs) // 4)][:4]:
-        samples.append({'case': r['case'], 'impl': r['impl'], 'model': r.get('model'), 'spec': r.get('spec')})
+        samples.append({'case': clip(r['case'], 3000), 'impl': clip(r['impl']), 'model': clip(r.get('model')), 'spec': clip(r.get('spec'))})
     coverage = {
         'obligations': n_obl, 'discharged': n_dis,
         'checker_cmd': f'cd /verif/lean && lake build PdbVerif.Props.{pid} && lake env lean PdbVerif/Audit/{pid}.lean' +
